@@ -22,6 +22,7 @@ import Rooc.Proofs.ExpLemmasStruct
 import Rooc.Proofs.ExpLemmasFull
 import Rooc.Proofs.ExpLemmasSpell
 import Rooc.Proofs.ExpLemmasCompile
+import Rooc.Proofs.RespellTrace
 namespace Rooc.Props.C10
 open Rooc Rooc.Exp Rooc.Sem
 set_option linter.unusedSimpArgs false
@@ -393,6 +394,66 @@ example : Compile.normalizedForBounds
   simp [Compile.normalizedForBounds_spec, Compile.mapOpt, Compile.normConstraint, Lin.normalizeExp,
     Lin.flattenFuel, flattenF, flattenF.flattenMulRest, simplify, addCore, mulCore, isNumEq, allNums,
     mayBeUndefined, h2, h3]
+
+/-! ## the model-level respelling theorem (`Compile.linearize`, the whole of `Linearizer::linearize`) -/
+
+/-- FULL. Two models with the same kind of objective and the same declarations, whose objective and constraint
+sides have pairwise equal normal forms (`Compile.Twins`: `normalizeExp`-equal; a logic assertion's placeholder
+right-hand side equal), and on which the up-front collapse check (rooc 81a4b76 + e35561f) has the same outcome,
+compile to the SAME result: `Ok` with the same linear model, or the same error.  These are exactly the two ways
+the pipeline reads a source side: the bounds stage and the work-list lowering through `normalizeExp` only
+(relational pass `Rooc.LinQ`, adapted from agent-c08proof's calculus), the check through the raw and/or nodes. -/
+theorem compile_twins {α : Type} [Arith α] {m m' : Model α} (h : Compile.Twins m m') (tol : α) (maxSteps : Nat)
+    (hchk : Compile.checkOutcome m' tol maxSteps = Compile.checkOutcome m tol maxSteps) :
+    Compile.linearize m' tol maxSteps = Compile.linearize m tol maxSteps :=
+  Compile.linearize_twins h tol maxSteps hchk
+
+/-- FULL. The check reads the raw sides only through the simplifications of their and/or nodes, in post-order
+(`Compile.traceModel`): twins with the same trace compile to the same result. -/
+theorem compile_twins_trace {α : Type} [Arith α] {m m' : Model α} (h : Compile.Twins m m')
+    (ht : Compile.traceModel m' = Compile.traceModel m) (tol : α) (maxSteps : Nat) :
+    Compile.linearize m' tol maxSteps = Compile.linearize m tol maxSteps :=
+  Compile.linearize_twins_trace h ht tol maxSteps
+
+theorem collapseCheckAll_reads_trace {α : Type} [Arith α] (m : Model α) :
+    Lin.collapseCheckAll m = Compile.runTrace (Compile.traceModel m) :=
+  Compile.collapseCheckAll_trace m
+
+/-- FULL, the property's quantifier ("re-spelling a constant"): two closed spellings of the same constant `k`
+that contain no and/or node, plugged into the same hole of any model — objective, constraint sides, inside
+blocks, under logic connectives, as coefficient or as bound — compile to the same result under
+`Compile.linearize`: the same linear model bit for bit, or the same rejection. -/
+theorem compile_respell_constant (ρ : String → K) (h : String) (c1 c2 : Exp (Ext K)) (k : K)
+    (hc1 : isClosed c1 = true) (hc2 : isClosed c2 = true)
+    (e1 : eval ρ c1 = some k) (e2 : eval ρ c2 = some k)
+    (n1 : Compile.noAndOr c1 = true) (n2 : Compile.noAndOr c2 = true)
+    (m : Model (Ext K)) (tol : Ext K) (maxSteps : Nat) :
+    Compile.linearize (Compile.substModel h c2 m) tol maxSteps =
+      Compile.linearize (Compile.substModel h c1 m) tol maxSteps :=
+  Compile.linearize_respell h
+    (by rw [simplify_closed ρ c1 hc1 k e1, simplify_closed ρ c2 hc2 k e2]) n1 n2 m tol maxSteps
+
+/-- the same for any number type, with the hypothesis the proof really uses. -/
+theorem compile_respell {α : Type} [Arith α] (h : String) (c1 c2 : Exp α)
+    (hs : simplify c1 = simplify c2) (n1 : Compile.noAndOr c1 = true) (n2 : Compile.noAndOr c2 = true)
+    (m : Model α) (tol : α) (maxSteps : Nat) :
+    Compile.linearize (Compile.substModel h c2 m) tol maxSteps =
+      Compile.linearize (Compile.substModel h c1 m) tol maxSteps :=
+  Compile.linearize_respell h hs n1 n2 m tol maxSteps
+
+/-- non-vacuity: `(1 + 1)` for `2` in `max x s.t. max{ c * x, y } <= 10`. -/
+example (ρ : String → K) (tol : Ext K) (n : Nat) (d : List (DomVar (Ext K))) :
+    let m : Model (Ext K) :=
+      { optType := .max, objective := .var "x",
+        constraints := [{ name := "", lhs := .max [.bin .mul (.var "c") (.var "x"), .var "y"], cmp := .le,
+                          rhs := .num (.fin 10), isAssert := false }],
+        domain := d }
+    Compile.linearize (Compile.substModel "c" (.bin .add (.num (.fin 1)) (.num (.fin 1))) m) tol n =
+      Compile.linearize (Compile.substModel "c" (.num (.fin 2)) m) tol n := by
+  intro m
+  exact compile_respell_constant ρ "c" (.num (.fin 2)) (.bin .add (.num (.fin 1)) (.num (.fin 1))) 2
+    (by simp [isClosed]) (by simp [isClosed]) (by simp [eval]) (by simp [eval, binVal]; norm_num)
+    (by simp [Compile.noAndOr]) (by simp [Compile.noAndOr]) m tol n
 
 /-! ## structural facts about the output (consumed by the linearizer) -/
 
